@@ -608,6 +608,89 @@ def r6_fresh_results(cx):
     cx.require(any("self.default" in U(r.value) for r in rets), opt, "Opt returns its default object itself on failure (hence the default must be immutable)", construct=" | ".join(short(r) for r in rets))
 
 
+OPERATORS = {"__add__": ("Sequence", True), "__or__": ("Choice", True), "__lshift__": ("KeepLeft", False), "__rshift__": ("KeepRight", False),
+             "__and__": ("FollowedBy", False), "__truediv__": ("NotFollowedBy", False)}
+
+
+def r7_operator_table(cx):
+    """`a + b` is the two-element sequence [a, b] whatever b is (a sequence on the right stays one element: its value is a nested list); likewise for
+    the other operators.  Only the *left* operand accumulates (Sequence.__add__ / Choice.__or__ append the right operand as one child)."""
+    cx.rule("C19.R7", "operator methods build the documented combinator from (self, other) without looking into the right operand", floor=8)
+    m = cx.repo.module(PS)
+    for op, (cls, as_list) in sorted(OPERATORS.items()):
+        fn = m.func("Parser.%s" % op, "C19.R7")
+        ps = params(fn)
+        rets = [r for r in walk_body(fn.body) if isinstance(r, ast.Return)]
+        good = bool(rets)
+        for r in rets:
+            v = r.value
+            ok = isinstance(v, ast.Call) and call_name(v) == cls and not v.keywords
+            if ok and as_list:
+                ok = len(v.args) == 1 and isinstance(v.args[0], (ast.List, ast.Tuple)) and [U(e) for e in v.args[0].elts] == ps[:2]
+            elif ok:
+                ok = [U(e) for e in v.args] == ps[:2]
+            good = good and ok
+        cx.require(good, rets[0] if rets else fn, "Parser.%s(self, other) returns %s of exactly (self, other)" % (op, cls), construct="; ".join(short(r, 70) for r in rets) or "(no return)")
+    for cn, op in (("Sequence", "__add__"), ("Choice", "__or__")):
+        fn = m.func("%s.%s" % (cn, op), "C19.R7")
+        ps = params(fn)
+        rets = [r for r in walk_body(fn.body) if isinstance(r, ast.Return)]
+        ok = len(rets) == 1 and U(rets[0].value) == "self.add_child(%s)" % ps[1]
+        cx.require(ok, rets[0] if rets else fn, "%s.%s appends the right operand as one child" % (cn, op), construct=short(rets[0], 70) if rets else "(no return)")
+    ac = m.func("Parser.add_child", "C19.R7") if m.has("Parser.add_child") else None
+    if ac is None:
+        for cn in ("Node", "Parser"):
+            if m.has("%s.add_child" % cn):
+                ac = m.get("%s.add_child" % cn)
+    if ac is not None:
+        ps = params(ac)
+        aps = [c for c in find_calls(ac.body, attr="append")]
+        ok = len(aps) == 1 and U(aps[0].func.value) == "self.children" and [U(a) for a in aps[0].args] == ps[1:2] and not [x for x in walk_body(ac.body) if isinstance(x, (ast.If, ast.For, ast.While))]
+        cx.require(ok, ac, "add_child appends its argument, as is, to self.children", construct=short(aps[0], 70) if aps else "(no append)")
+    else:
+        cx.unknown(m.tree.body[0], "cannot find add_child")
+
+
+def r8_indent_pairing(cx):
+    """A failed alternative leaves no trace: whatever is pushed on the context's indentation stack for the duration of a child parse is popped on
+    every exit, i.e. in a finally (directly, or in a context manager whose yield sits in a try/finally)."""
+    cx.rule("C19.R8", "the indentation stack of the context is popped on every exit of the parse that pushed it", floor=1)
+    m = cx.repo.module(PS)
+    n = 0
+    for fn in [f for f in ast.walk(m.tree) if isinstance(f, FUNC_TYPES)]:
+        pushes = [c for c in find_calls(fn.body, attr="append") if U(c.func.value).endswith(".indents")]
+        for c in pushes:
+            n += 1
+            owner = U(c.func.value)
+            st = stmt_of(c)
+            tries = [t for t in walk_body(fn.body) if isinstance(t, ast.Try) and any(U(x.func.value) == owner for y in t.finalbody for x in find_calls([y], attr="pop"))]
+            ok = False
+            for t in tries:
+                inside = any(st is y or any(st is z for z in ast.walk(y)) for y in t.body)
+                blk = parent(t)
+                before = False
+                for fld in ("body", "orelse", "finalbody"):
+                    lst = getattr(blk, fld, None)
+                    if isinstance(lst, list) and t in lst and st in lst and lst.index(st) < lst.index(t):
+                        between = lst[lst.index(st) + 1:lst.index(t)]
+                        before = not any(isinstance(x, (ast.Yield, ast.YieldFrom, ast.Return, ast.Raise)) or (isinstance(x, ast.Call) and call_attr(x) == "process") for y in between for x in ast.walk(y))
+                if inside:
+                    # nothing that can fail may stand between the push and the end of what the finally protects ... it is in the try: fine
+                    ok = True
+                if before:
+                    ok = True
+                if ok:
+                    # the child parse (or the yield that stands for it) is inside that try
+                    ok = any(isinstance(x, (ast.Yield, ast.YieldFrom)) or (isinstance(x, ast.Call) and call_attr(x) == "process") for y in t.body for x in ast.walk(y))
+                if ok:
+                    break
+            cx.require(ok, c, "%s pushes an indent and pops it in a finally around the child parse" % fn.name, construct=short(st, 80))
+    if n == 0:
+        wi = m.has("WithIndent.process")
+        if wi:
+            cx.bad(m.get("WithIndent.process"), "WithIndent pushes its column on the indentation stack", construct="(no push found)")
+
+
 def run(cx):
     cx.extra["explanation"] = ("C19: def-use facts on the position variable of every core combinator's process() (origin of the position handed to each child call, whether a child's result "
                                "reaches the function result, what each handler does) compared with the PEG protocol table; effect rule (no writes to the input, context only through error "
@@ -622,3 +705,5 @@ def run(cx):
     cx.guard(r4b_numbers)
     cx.guard(r5_no_shared_extension)
     cx.guard(r6_fresh_results)
+    cx.guard(r7_operator_table)
+    cx.guard(r8_indent_pairing)
